@@ -89,7 +89,7 @@ CHECK = LineCheck("C19", ["SimVerif.Props.C19"], "h_pcap", ["h_pcap.cpp"], "pcap
 from props.common import ScenarioCheck
 from specs import pcap_trace
 import net_gen, tcp_stream_gen
-import vlib, time
+import vlib, time, os
 
 def gen2(seed, tier):
     n = 250 if tier == "quick" else 6000
@@ -99,19 +99,41 @@ def gen2(seed, tier):
         out += net_gen.generate(seed * 10 + i, tier, f, n // len(fams), pcap=True)
     # connected sockets moved to a new object in mid-stream: the byte counters travel with the connection
     out += tcp_stream_gen.generate_moved(seed * 10 + 9, tier, 40 if tier == "quick" else 1500, pcap=True)
+    # retransmissions for certain: a scripted dropper on the writer's own outgoing route
+    out += tcp_stream_gen.generate_drop_pcap(seed * 10 + 8, tier, 40 if tier == "quick" else 1000)
+    # the same socket objects (and mostly the same 4-tuple) on a second connection, both sides writing again
+    out += tcp_stream_gen.generate_reuse_pcap(seed * 10 + 7, tier, 40 if tier == "quick" else 1000)
     return out
+
+_ST = {}
+
+def spec2(impl, scn):
+    fails, st = pcap_trace.check_stats(impl, scn)
+    _ST[scn] = st
+    return fails
 
 def nontrivial2(impl):
     return any(l.startswith("F pcap ") and len(l) > 200 for l in impl)
 
-SIM = ScenarioCheck("C19", ["SimVerif.Props.C19"], "kernel", gen2, pcap_trace.check, nontrivial2,
-    "whole simulations among IPv4 nodes with capture on (TCP connections in both directions, lossy routes with retransmission, closing segments, UDP datagrams incl. unbound destinations and don't-fragment discards): the capture file is predicted byte for byte by the Lean world model (same Pcap encoder the theorems are about) and re-read by an independent parser compared with the first-hop probes' view of every send",
+SIM = ScenarioCheck("C19", ["SimVerif.Props.C19"], "kernel", gen2, spec2, nontrivial2,
+    "whole simulations among IPv4 nodes with capture on (TCP connections in both directions, lossy routes with retransmission, closing segments, UDP datagrams incl. unbound destinations and don't-fragment discards; a family with a scripted dropper on the writer's own route (retransmissions certain, counted by the monitor) and a family re-using the same socket objects / the same 4-tuple for a second connection with both sides writing): the capture file is predicted byte for byte by the Lean world model (same Pcap encoder the theorems are about) and re-read by an independent parser compared with the first-hop probes' view of every send; the destination of every record is compared with the send_to / connect argument (accepted side: the own endpoint of a socket that connected to it), sequence numbers are per direction of a connection (a connection begins at its connect call)",
     TRUSTED + ["world model SimVerif/Net.lean + Tcp.lean places the capture calls where send_packet / send_to_impl have them; which sends reach the capture is validated by exact file equality on generated simulations, not proved"],
     ASSUME, spec_scn=True)
+
+def _extra_cov(results):
+    tot = {}
+    for i, r in results.items():
+        for k, v in (_ST.get(r["scn"]) or {}).items(): tot[k] = tot.get(k, 0) + v
+    return dict(monitor_counters=tot)
+
+SIM.extra_cov = _extra_cov
 
 def run(tier, seed, replay):
     if replay:
         return (SIM if replay.endswith(".scn") else CHECK).run(tier, seed, replay)
+    if os.environ.get("VERIF_DUMP_SCN"):
+        # tools/coverage.py: stage 1 has no scenarios (it drives h_pcap); stage 2 returns right after its dump
+        return SIM.run(tier, seed, None, write=False)
     t0 = time.time()
     rc1 = CHECK.run(tier, seed, None, write=False)
     cov1, v1, _ = CHECK.last
@@ -122,7 +144,7 @@ def run(tier, seed, replay):
     cov["distinct_nontrivial"] = cov1["distinct_nontrivial"] + cov2["distinct_nontrivial"]
     cov["traces_validated_against_impl"] = cov1["traces_validated_against_impl"] + cov2["traces_validated_against_impl"]
     cov["rule"] = "stage 1 (encoder, per record): " + cov1["rule"] + " | stage 2 (simulations): " + cov2["rule"]
-    cov["stage2"] = {k: cov2[k] for k in ("evaluations", "distinct_nontrivial", "labels_compared", "mismatches", "spec_failures", "crashes")}
+    cov["stage2"] = {k: cov2[k] for k in ("evaluations", "distinct_nontrivial", "labels_compared", "mismatches", "spec_failures", "crashes", "monitor_counters")}
     cov["samples"] = cov1["samples"][:2] + cov2["samples"][:1]
     vlib.write_evidence("C19", tier, seed, cov, ASSUME, time.time() - t0, v1 + v2)
     return 1 if (rc1 or rc2) else 0
